@@ -568,6 +568,7 @@ func genCompose(r *rand.Rand, n int, tier string, emit func(string) string) {
 			}
 		}
 		hedgeMax, hedgeAny := 0, false
+		hedgeOuter := false
 		if wantHedge {
 			hasHedge = true
 			hedgeMax = r.Intn(4)
@@ -593,7 +594,16 @@ func genCompose(r *rand.Rand, n int, tier string, emit func(string) string) {
 					hedgeMax = budget
 				}
 			}
-			pols = append(pols, fmt.Sprintf("pol hedge %d %s", hedgeMax, co))
+			hp := fmt.Sprintf("pol hedge %d %s", hedgeMax, co)
+			if len(pols) > 0 && r.Intn(3) == 0 {
+				// a hedge that is not innermost: its attempts run the policies inside it; only instant outcomes then (a blocked
+				// attempt would run those policies concurrently with the next one)
+				idx := r.Intn(len(pols))
+				pols = append(pols[:idx], append([]string{hp}, pols[idx:]...)...)
+				hedgeOuter = true
+			} else {
+				pols = append(pols, hp)
+			}
 		}
 		for _, l := range pre {
 			emit("compose " + l)
@@ -629,7 +639,7 @@ func genCompose(r *rand.Rand, n int, tier string, emit func(string) string) {
 						it += ",S"
 						sleepCount++
 					}
-				} else if (hasTimeout || (hasHedge && hedgeAny && blockedCount < hedgeMax)) && r.Intn(4) == 0 {
+				} else if !hedgeOuter && (hasTimeout || (hasHedge && hedgeAny && blockedCount < hedgeMax)) && r.Intn(4) == 0 {
 					it += ",B"
 					blockedSeen = true
 					blockedCount++
